@@ -16,7 +16,8 @@ CFG = {
         "engine offered (kernel-evaluated COff cases: offered subset of matches, not more often than they match, every match "
         "offered now or earlier modulo the union-find)",
         "modelling choice of the apply phase: a decided match whose ids are all canonical is executed as Rules.v does (witness "
-        "terms); a match holding a displaced id is executed with the raw ids (this is what produces F7); the engine's semi-naive "
+        "terms); a match holding a displaced id would be executed with the raw ids (finding F7, fixed in /repo c01cd3e: the step "
+        "re-canonicalises the side vector first, modelled by canon_t; the raw branch is proved unreachable from WFs states); the engine's semi-naive "
         "query (each match offered once in total) is modelled by a naive query (offered at every search) -- the link is the "
         "cumulative 'offered now or earlier' check",
         "translator /verif/translator: gen/UFSeq.v, gen/MergeArms.v, gen/BridgeFns.v are used by Egg/Model.v",
@@ -29,23 +30,25 @@ CFG = {
                       "permutation of the unchosen ones, duplicates/order of choices irrelevant; c18_offered_all: for every scheduler, "
                       "program and state each rule's filter_matches gets residual ++ (one tuple per match of the body iff a search was "
                       "requested); c18_offered_not_subsumed: match_body is invariant under deleting all subsumed rows; c18_no_loss: "
-                      "unchosen matches are kept and offered again at the next step whatever happens to the database in between; "
+                      "unchosen matches are kept and offered again at the next step, read through the union-find of that moment, whatever "
+                      "happens to the database in between; "
                       "c18_choose_all_eq_builtin: a choose-everything scheduler step = Rules.iteration (state and error) on a canonical "
-                      "database, keeps no residual; c18_canonical_after_step_refuted (F7 witness, vm_compute) + "
-                      "c18_canonical_after_step_partial (all ids held in side vectors still canonical => step keeps WFs/canonicity, "
-                      "constructor fragment)",
+                      "database, keeps no residual; c18_canonical_after_step: every step keeps WFs/canonicity for every scheduler and any "
+                      "content of the side vectors (constructor fragment); c18_offered_is_canonical: every offered tuple holds canonical "
+                      "ids (all signatures); c18_f7_scenario_now_canonical (the former F7 witness, vm_compute)",
     "link_only": "on the real engine, 5 policies x generated programs x injected writes: offered-set soundness/completeness/multiplicity vs an "
-                 "independent naive matcher over non-subsumed rows; no loss (held-back matches re-offered, modulo the union-find); heads "
+                 "independent naive matcher over non-subsumed rows; no loss (held-back matches re-offered, modulo the union-find, with "
+                 "canonical ids: regression predicate of the fixed F7, key F7-scheduler-stale-ids; corpus/C18/f7_stale_ids.json must pass); heads "
                  "of chosen matches hold after the step modulo the equalities that hold then; nothing chosen => dump unchanged; choose-all "
                  "== step_rules on a clone in lockstep; Dump::invariant (H0) after every step incl. failed ones; unknown ruleset / "
                  "panicking action / failing primitive mid-step leave rulesets and schedulers usable. 'any fair scheduler reaches the "
                  "same saturated database on confluent programs' is not checked (no theorem, no predicate).",
     "assumptions": [
-        "value-level execution of a stale match is sequential with a rebuild after each union (as Rules.v); the engine stages writes and "
-        "rebuilds once per run_rules -- only the F7 witness and the partial theorem depend on it, neither on the difference",
+        "c18_canonical_after_step is proved for heads made of expressions and unions over constructor tables with all-UnionId "
+        "signatures (the fragment c04_inv_reachable / exec_spec covers); for sets / subsume / delete heads canonicity after the step is "
+        "checked on the implementation only (c18_offered_is_canonical still shows every applied match is canonical)",
         "the engine may offer fewer tuples than body matches when variables not read by the head are projected away by the planner "
         "(observed for variable-free heads): the model offers one per body match; set-level agreement is what is checked",
-        "partial theorem covers heads made of expressions and unions over constructor tables (the fragment c04_inv_reachable covers)",
         "can_stop / RunReport flags and container-sorted variables are not modelled",
     ],
 }
